@@ -98,11 +98,10 @@ def run_kani_group(prop, grp, tier, obligations, undecided, failures, checker_cm
             undecided.append({"obligation": "weave", "reason": u.reason, "detail": u.detail})
             return
         ev_extra.setdefault("weave_log", []).extend(ws.weave_log)
-        unit0 = registry.UNITS[grp["units"][0]]
-        features = grp.get("features", unit0.get("features"))
         crate = grp["crate"]
+        unit0 = next((registry.UNITS[u] for u in grp["units"] if registry.UNITS[u].get("crate") == crate), registry.UNITS[grp["units"][0]])
+        features = grp.get("features", unit0.get("features"))
         timeout = max(h.get("timeout", 300) for h in hs) + 600
-        unit0 = next((registry.UNITS[u] for u in grp["units"] if "features" in registry.UNITS[u]), unit0)
         res, meta, raw = vlib.kani_run(
             ws, crate, [h["name"] for h in hs], features=features, jobs=grp.get("jobs", 8),
             timeout=timeout, harness_timeout=max(h.get("timeout", 300) for h in hs),
@@ -201,7 +200,8 @@ def write_replay(prop, f):
         "engine": "kani" if kgrp else f["group"]["kind"],
         "crate": kgrp.get("crate") if kgrp else None,
         "units": kgrp.get("units") if kgrp else None,
-        "features": (kgrp.get("features") or registry.UNITS[kgrp["units"][0]].get("features")) if kgrp else None,
+        "features": (kgrp.get("features") or next((registry.UNITS[u].get("features") for u in kgrp["units"]
+                                                     if registry.UNITS[u].get("crate") == kgrp.get("crate")), None)) if kgrp else None,
         "harness": src["harness"]["name"], "harness_file": src["harness"].get("file"),
         "replayable_natively": bool(src["harness"].get("replayable", True)) and bool(kgrp),
         "verifier_output": f.get("kani") or f.get("verus") or f.get("cbmc"),
